@@ -20,6 +20,15 @@ operand sharing of ufl/exprequals.py; per-terminal-class projection table).
     every object must be unchanged.
 (c) single-attribute-difference sweep over the classes exported by ufl.classes.
 (d) pickle and eval(repr(.)) round trips of every enumerated expression / form.
+(e) literal mode of EqShare.tla: the universe of CONSTRUCTOR CALLS of scalar literals -- IntValue / FloatValue /
+    ComplexValue / as_ufl applied to a Python int, bool, numpy integer, float, numpy float, complex, numpy complex,
+    for zero, one, a number below the IntValue flyweight bound (|n| < 100), numbers at/above it and non-integral
+    numbers -- with the flyweight cache as state.  TLC checks the laws on that model (for the conversions the real
+    constructors are PROBED to perform; a counterexample is replayed on the real classes) and exports behaviours
+    (all pairs of calls about the same number + seeded deep random ones) with the predicted class, stored type,
+    identity and equality class of every returned object; they are replayed on the real constructors: == must
+    be exactly the predicted classes, equal objects agree on hash / repr / value / signature, objects returned
+    earlier are unchanged by later calls, every object survives pickle and eval(repr(.)).
 """
 
 from __future__ import annotations
@@ -30,6 +39,9 @@ import pickle
 import random
 import time
 import warnings
+from concurrent.futures import ThreadPoolExecutor
+
+import numpy as np
 
 import ufl
 import ufl.classes as UC
@@ -844,6 +856,9 @@ WithX = {withx}
 XEq = {xeq}
 XHash = {xhash}
 XWalk = {xwalk}
+LitMax = {litmax}
+LitFocus = {litfocus}
+LitCoerce = {litcoerce}
 ProjTable <- MCProjTable
 SPECIFICATION Spec
 {checks}
@@ -854,18 +869,29 @@ HEAP_LAWS = ["EqReflexive", "EqSymmetric", "EqTransitive", "EqIsStructEq", "EqIm
 FULL = "{1, 2}"
 
 
+LIT_CLASSES = ("IntValue", "FloatValue", "ComplexValue")
+
+
 def run_eqshare(mode="heap", n=3, mt=3, proj=(FULL, FULL, FULL), mh=0, wr=True, invs=(), props=(), table="<< >>",
-                extra="", x=None, **kw):
-    """x = None: no attributed operators; else (XEq, XHash, XWalk)."""
+                extra="", x=None, lit=None, **kw):
+    """x = None: no attributed operators; else (XEq, XHash, XWalk).
+    lit (mode "lit") = (LitMax, LitFocus, LitCoerce)."""
     B = lambda v: "TRUE" if v else "FALSE"  # noqa: E731
     checks = "\n".join("INVARIANT " + i for i in invs) + "\n" + "\n".join("PROPERTY " + p for p in props)
+    lmax, lfocus, lcoerce = lit or (1, True, LIT_CLASSES)
     cfg = CFG.format(mode=mode, n=n, mt=mt, eq=proj[0], hs=proj[1], rp=proj[2], mh=mh,
-                     wr=B(wr), checks=checks, withx=B(x is not None), xeq=B(x and x[0]), xhash=B(x and x[1]), xwalk=B(x and x[2]))
+                     wr=B(wr), checks=checks, withx=B(x is not None), xeq=B(x and x[0]), xhash=B(x and x[1]), xwalk=B(x and x[2]),
+                     litmax=lmax, litfocus=B(lfocus), litcoerce="{" + ", ".join(tlc.tla(c) for c in lcoerce) + "}")
     res = tlc.run("EqShare", cfg, mc_text=MC.format(table=table, extra=extra), mc_name="MC_EqShare", **kw)
     if res.outcome == "error":
         # seen once under heavy machine load (JVM start); a genuine error is deterministic
         print("  tlc error, retrying once; tail of output:\n" + "\n".join(res.stdout.splitlines()[-15:]), flush=True)
         res = tlc.run("EqShare", cfg, mc_text=MC.format(table=table, extra=extra), mc_name="MC_EqShare", **kw)
+    if mode == "lit":
+        print(f"  tlc EqShare mode=lit LitMax={lmax} focus={lfocus} coerce={list(lcoerce)} {kw.get('simulate') or 'exhaustive'} "
+              f"checks={list(invs) + list(props)} -> {res.outcome}{' ' + str(res.violated) if res.violated else ''} "
+              f"distinct={res.distinct} generated={res.generated} {res.wall:.1f}s", flush=True)
+        return res
     print(f"  tlc EqShare mode={mode} N={n} MaxTerm={mt} proj={proj[0]}/{proj[1]}/{proj[2]} X={x} hist={mh} checks={list(invs) + list(props)} "
           f"-> {res.outcome}{' ' + str(res.violated) if res.violated else ''} distinct={res.distinct} generated={res.generated} "
           f"{res.wall:.1f}s", flush=True)
@@ -1497,6 +1523,322 @@ def conformance(ctx):
 
 
 # ==========================================================================================
+# (e) literals: constructor calls generated by TLC (literal mode of EqShare.tla), replayed
+# ==========================================================================================
+
+LZ, LONE, LS, LL, LL2, LH = range(6)
+_NP_INT_BITS = (("int64", 63), ("int32", 31), ("int16", 15), ("int8", 7), ("uint64", -64), ("uint32", -32), ("uint16", -16), ("uint8", -8))
+_MISSING = object()
+_NS = []
+
+
+def _ns():
+    if not _NS:
+        _NS.append(eval_namespace())
+    return _NS[0]
+
+
+def stored_type(x):
+    """Abstract Python type of the value a literal stores (the `vt` of EqShare.tla)."""
+    if not isinstance(x, UC.ScalarValue):
+        return "none"
+    v = x.value()
+    for t, name in ((bool, "bool"), (int, "int"), (float, "float"), (complex, "complex")):
+        if type(v) is t:
+            return name
+    for t, name in ((np.bool_, "npbool"), (np.integer, "npint"), (np.floating, "npfloat"), (np.complexfloating, "npcomplex")):
+        if isinstance(v, t):
+            return name
+    return type(v).__name__
+
+
+def probe_lit_coerce():
+    """Which literal classes store their value converted to the Python type they wrap (read off the real code)."""
+    out = []
+    with warnings.catch_warnings():
+        warnings.simplefilter("ignore")
+        probes = {
+            "IntValue": lambda: [UC.IntValue(np.int64(1000003)), UC.IntValue(1000003.0), ufl.as_ufl(np.int32(-1000003))],
+            "FloatValue": lambda: [UC.FloatValue(np.float32(2.5)), UC.FloatValue(1000003), UC.FloatValue(np.int64(7)), ufl.as_ufl(np.float32(1.5))],
+            "ComplexValue": lambda: [UC.ComplexValue(np.complex128(1 + 2j)), ufl.as_ufl(np.complex64(1 + 2j))],
+        }
+        want = {"IntValue": "int", "FloatValue": "float", "ComplexValue": "complex"}
+        for cls in LIT_CLASSES:
+            r = _try(lambda: [stored_type(x) for x in probes[cls]()])
+            if isinstance(r, list) and all(t == want[cls] for t in r):
+                out.append(cls)
+    return tuple(out)
+
+
+def lit_numbers(doc, rng):
+    """Concrete numbers for the abstract slots of one behaviour (both signs; 99 / 100 at the flyweight bound)."""
+    s = rng.randint(2, 98)
+    big = rng.choice([rng.randint(101, 9999), rng.randint(10**5, 2**31 - 2), 2**24 + 1])
+    num = {LZ: 0, LONE: 1,
+           LS: rng.choice([99, -99, s, -s]),
+           LL: rng.choice([100, -100, big, -big]),
+           LH: rng.choice([0.5, -0.5, 2.5, -37.5, 99.5, -100.5, 1234.5])}
+    n = num[LL]
+    num[LL2] = rng.choice([-n, n + 1 if n > 0 else n - 1])
+    return num, rng.choice([1.0, -2.0, 0.5])
+
+
+def lit_argument(src, n, imv, rng):
+    """The Python object of abstract type `src` that holds the number n (+ imv j)."""
+    if src == "int":
+        return int(n)
+    if src == "bool":
+        return bool(n)
+    if src == "npint":
+        fits = [name for name, b in _NP_INT_BITS if (abs(n) < 2**b if b > 0 else 0 <= n < 2**-b)]
+        return np.dtype(rng.choice(fits)).type(int(n))
+    if src == "float":
+        return float(n)
+    if src == "npfloat":
+        with np.errstate(all="ignore"), warnings.catch_warnings():
+            warnings.simplefilter("ignore")
+            fits = [t for t in (np.float64, np.float32, np.float16) if float(t(n)) == float(n)]
+        return rng.choice(fits)(n)
+    z = complex(n, imv)
+    if src == "complex":
+        return z
+    if src == "npcomplex":
+        with np.errstate(all="ignore"), warnings.catch_warnings():
+            warnings.simplefilter("ignore")
+            fits = [t for t in (np.complex128, np.complex64) if complex(t(z)) == z]
+        return rng.choice(fits)(z)
+    raise MachineryError(f"unknown argument type {src}")
+
+
+def _lit_cmp(op, a, b):
+    """(answer, is it a Python bool): an answer of another truth-valued type (numpy.bool_) is reported once and then
+    judged by its truth value."""
+    r = (a == b) if op == "==" else (a != b)
+    if r is True or r is False:
+        return r, True
+    if isinstance(r, np.bool_):
+        return bool(r), False
+    return "nonbool:" + type(r).__name__, False
+
+
+_LIT_API = {"IntValue": lambda a: UC.IntValue(a), "FloatValue": lambda a: UC.FloatValue(a),
+            "ComplexValue": lambda a: UC.ComplexValue(a), "as_ufl": lambda a: ufl.as_ufl(a)}
+
+
+def replay_literals(ctx, doc, seed, tamper=None):
+    """Execute one TLC behaviour of constructor calls on the real constructors.  The numbers below the flyweight
+    bound that it uses are taken out of IntValue._cache before (a behaviour starts as in a fresh interpreter) and
+    the previous entries are put back afterwards."""
+    steps = doc["steps"]
+    rng = random.Random(seed)
+    num, imv = lit_numbers(doc, rng)
+    cache = getattr(UC.IntValue, "_cache", None)
+    if not isinstance(cache, dict):
+        raise MachineryError("IntValue._cache not found: the state of the flyweight cache cannot be set up")
+    saved = {}
+    for st in steps:
+        if st["slot"] in (LONE, LS) and num[st["slot"]] not in saved:
+            saved[num[st["slot"]]] = cache.pop(num[st["slot"]], _MISSING)
+    try:
+        with warnings.catch_warnings():
+            warnings.simplefilter("ignore")
+            return _replay_literals(ctx, doc, seed, rng, num, imv, tamper)
+    finally:
+        for n, old in saved.items():
+            cache.pop(n, None)
+            if old is not _MISSING:
+                cache[n] = old
+
+
+def _replay_literals(ctx, doc, seed, rng, num, imv, tamper):
+    steps = doc["steps"]
+    rp = {"kind": "literal", "seed": seed, "doc": doc}
+    O, ref, args, calls = [], [], [], []
+    checks = 0
+    nontrivial = False
+    for i, st in enumerate(steps):
+        arg = lit_argument(st["src"], num[st["slot"]], imv if st["im"] else 0.0, rng)
+        call = f"{st['api']}({arg!r} : {type(arg).__name__})"
+        try:
+            with warnings.catch_warnings():
+                warnings.simplefilter("ignore")
+                x = _LIT_API[st["api"]](arg)
+        except Exception as e:  # noqa: BLE001
+            V(ctx, f"C13:literal-constructor-raises:{st['api']}:{st['src']}:{type(e).__name__}",
+              f"{call} raises {type(e).__name__}: {e}", rp)
+            return checks
+        if tamper == "raw-value" and isinstance(x, UC.IntValue) and st["src"] != "int" and abs(num[st["slot"]]) >= 100:
+            x._value = arg  # selftest: an object as a constructor without conversion would leave it
+        ox = observe(x)
+        O.append(x)
+        ref.append(ox)
+        args.append(arg)
+        calls.append(call)
+        cls = st["cls"]
+        if type(x).__name__ != cls:
+            ctx.count("literal_class_not_predicted")
+            ctx.cov.setdefault("literal_class_not_predicted_example", {"call": call, "real": type(x).__name__, "predicted": cls})
+        if stored_type(x) != st["vt"]:
+            ctx.count("literal_stored_type_not_predicted")
+            ctx.cov.setdefault("literal_stored_type_not_predicted_example", {"call": call, "real": stored_type(x), "predicted": st["vt"]})
+        checks += 2
+        if _lit_cmp("==", x, x)[0] is not True:
+            V(ctx, f"C13:eq-not-reflexive:{cls}", f"{call} == itself gives {eqv(x, x)}", rp)
+        for j in range(i):
+            y, oy, sj = O[j], ref[j], steps[j]
+            (e1, b1), (e2, b2), (n1, b3) = _lit_cmp("==", y, x), _lit_cmp("==", x, y), _lit_cmp("!=", y, x)
+            want = sj["eqc"] == st["eqc"]
+            checks += 4
+            pair = f"{calls[j]} and {call}"
+            odd = sorted({steps[k]["src"] for k in (i, j) if stored_type(O[k]) != steps[k]["vt"]})
+            # structural class of the pair: the (first) argument type whose stored value is not of the predicted type
+            tag = "src=" + (odd[0] if odd else "~".join(sorted({sj["src"], st["src"]})))
+            if (x is y) != (sj["id"] == st["id"]):
+                ctx.count("literal_identity_not_predicted")
+                ctx.cov.setdefault("literal_identity_not_predicted_example", {"calls": pair, "real": x is y, "doc": doc})
+            if not (b1 and b2 and b3):
+                V(ctx, f"C13:eq-not-bool:{cls}", f"{pair}: == / != do not return a bool: {type(y == x).__name__}, {type(y != x).__name__}", rp)
+            if not isinstance(e1, bool) or not isinstance(e2, bool):
+                continue
+            if e1 != e2:
+                V(ctx, f"C13:literal-eq-asymmetric:{'~'.join(sorted({sj['cls'], cls}))}:{tag}", f"{pair}: a == b is {e1}, b == a is {e2}", rp)
+            if n1 is not (not e1):
+                V(ctx, f"C13:ne-inconsistent:{cls}", f"{pair}: == is {e1} but != is {n1}", rp)
+            if e1 is True or e2 is True:
+                d = diff_obs(oy, ox)
+                if d:
+                    V(ctx, f"C13:literal-equal-but-differ:{cls}:{tag}:{'+'.join(d)}",
+                      f"{pair} are == but their {d} differ: repr {oy['repr']!r} vs {ox['repr']!r}, "
+                      f"stored value {oy.get('value')!r} vs {ox.get('value')!r}", rp, detail={"differ": d})
+            if e1 != want:
+                V(ctx, f"C13:literal-eq-{'spurious' if e1 else 'missing'}:{'~'.join(sorted({sj['cls'], cls}))}:{tag}",
+                  f"{pair}: == gives {e1}, EqShare.tla (literal mode) predicts {want}: {y!r} vs {x!r}", rp)
+            if want and (sj["api"], sj["src"]) != (st["api"], st["src"]):
+                nontrivial = True
+            # the objects returned earlier are unchanged by the later call
+            now = observe(y)
+            d = diff_obs(oy, now, keys=("repr", "str", "shape", "fi", "value", "hash", "sig"))
+            if d:
+                V(ctx, f"C13:create-changes-object:{sj['cls']}:{'+'.join(d)}",
+                  f"after {call} the object returned by {calls[j]} changed its {d}: {oy['repr']!r} -> {now['repr']!r}", rp)
+                return checks
+    # round trips of every returned object
+    seen = []
+    for i, x in enumerate(O):
+        if any(x is s for s in seen):
+            continue
+        seen.append(x)
+        st = steps[i]
+        roundtrips(ctx, f"literal:{st['api']}({st['src']}):{st['cls']}:slot{st['slot']}", x, _ns(),
+                   {"source": "literal", "seed": seed, "doc": doc})
+        checks += 2
+    ctx.evaluated(checks)
+    if nontrivial:
+        ctx.distinct("lit|" + json.dumps([(s["api"], s["src"], s["slot"], s["im"]) for s in steps]))
+    return checks
+
+
+def literal_observations(ctx):
+    """Inputs left out of the judged universe because the unchanged code fails on them: recorded, never judged."""
+    def signed_zero():
+        a, b = UC.ComplexValue(complex(0.0, -2.0)), UC.ComplexValue(complex(-0.0, -2.0))
+        c = eval(repr(a), dict(_ns()))  # noqa: S307
+        return eqv(a, b) is True and repr(a) != repr(b), eqv(a, c) is True and repr(a) != repr(c)
+
+    r = _try(signed_zero)
+    if isinstance(r, tuple) and r[0]:
+        ctx.count("unjudged_observation:ComplexValue(0-2j)==ComplexValue(-0-2j)-but-repr-and-hash-differ")
+    if isinstance(r, tuple) and r[1]:
+        ctx.count("unjudged_observation:eval(repr(ComplexValue(-2j)))-is-equal-but-has-another-repr-and-hash")
+
+
+def _spread(docs, limit):
+    """TLC's simulator prints every candidate successor: pick `limit` behaviours spread over all the traces."""
+    uniq, keys = [], set()
+    for d in docs:
+        k = json.dumps(d, sort_keys=True)
+        if k not in keys:
+            keys.add(k)
+            uniq.append(d)
+    if len(uniq) <= limit:
+        return uniq
+    return [uniq[(k * len(uniq)) // limit] for k in range(limit)]
+
+
+def lit_plans(ctx):
+    """[(name, run_eqshare keywords, max number of behaviours replayed)]"""
+    inv = ["LitLaws", "LitExport"]
+    P = [("pairs-same-number", dict(lit=(2, True, LIT_CLASSES), invs=inv, props=["LitStable"], workers=4), None),
+         # (the simulator evaluates the invariants on every candidate successor: ~110 per step)
+         ("random", dict(lit=(8, False, LIT_CLASSES), invs=inv, workers=1, simulate="num=6" if ctx.tier == "quick" else "num=60",
+                         depth=9, seed=ctx.seed + 5), 48 if ctx.tier == "quick" else 600)]
+    if ctx.tier != "quick":
+        P.append(("pairs", dict(lit=(2, False, LIT_CLASSES), invs=inv, props=["LitStable"], workers=8), None))
+        P.append(("triples-same-number", dict(lit=(3, True, LIT_CLASSES), invs=inv, props=["LitStable"], workers=8), None))
+    return P
+
+
+def literals_start(ctx):
+    """Start the TLC runs of the literal mode in the background (they overlap with the other TLC runs)."""
+    ex = ThreadPoolExecutor(max_workers=4)
+    futs = [(name, limit, ex.submit(run_eqshare, mode="lit", n=0, mt=0, timeout=1500, **kw)) for name, kw, limit in lit_plans(ctx)]
+    ex.shutdown(wait=False)
+    return futs
+
+
+def literals(ctx, futs):
+    # --- the model of the constructors AS PROBED: TLC's counterexample to the laws is replayed on the real classes
+    coerce = probe_lit_coerce()
+    ctx.cov["literal_constructors_converting_the_stored_value"] = list(coerce)
+    if set(coerce) != set(LIT_CLASSES):
+        res = run_eqshare(mode="lit", n=0, mt=0, lit=(2, True, coerce), invs=["LitLawsCex"], workers=1, timeout=600)
+        ctx.add_tlc(res)
+        docs = tlc.decode_prints(res)
+        if res.outcome == "invariant" and docs:
+            ctx.count("laws_violated_by_literal_constructors_as_probed")
+            ctx.sample({"tlc_counterexample_literals": {"converting": list(coerce), "calls": [(s["api"], s["src"], s["slot"]) for s in docs[0]["steps"]]}})
+            for k in range(8):
+                sink = Sink()
+                replay_literals(sink, docs[0], ctx.seed * 7919 + k)
+                if sink.viol:
+                    replay_literals(ctx, docs[0], ctx.seed * 7919 + k)
+                    ctx.traces(1)
+                    break
+            else:
+                ctx.count("literal_counterexample_not_reproduced")
+        elif res.outcome != "ok":
+            tlc.require_ok(res, "EqShare literal mode, constructors as probed")
+    # --- the intended model: laws checked by TLC, behaviours replayed
+    total = 0
+    for name, limit, fut in futs:
+        res = fut.result()
+        ctx.add_tlc(res)
+        tlc.require_ok(res, f"EqShare literal mode ({name})")
+        docs = tlc.decode_prints(res)
+        if limit is not None:
+            docs = _spread(docs, limit)
+        if not docs:
+            raise MachineryError(f"TLC produced no literal behaviours ({name})")
+        hits = sum(1 for d in docs for i, s in enumerate(d["steps"], start=1) if s["id"] < i and s["cls"] == "IntValue")
+        mixed = sum(1 for d in docs for a, b in itertools.combinations(d["steps"], 2)
+                    if a["eqc"] == b["eqc"] and a["src"] != b["src"] and a["cls"] != "Zero")
+        if not hits or not mixed:
+            raise MachineryError(f"literal behaviours ({name}) are vacuous: {hits} flyweight hits, {mixed} equal pairs of different argument types")
+        ctx.count(f"literal_behaviours_{name}", len(docs))
+        for idx, doc in enumerate(docs):
+            if replay_literals(ctx, doc, ctx.seed * 1000003 + idx):
+                ctx.traces(1)
+                total += 1
+            if idx < 1:
+                ctx.sample({"literal_behaviour": [(s["api"], s["src"], s["slot"], s["im"], s["cls"], s["eqc"]) for s in doc["steps"]]})
+    ctx.count("literal_behaviours_replayed", total)
+    literal_observations(ctx)
+    ctx.cov["literal_call_universe"] = ("api in IntValue/FloatValue/ComplexValue/as_ufl x argument type in int/bool/numpy integer/float/"
+                                        "numpy float/complex/numpy complex x number in 0/1/small(<100)/large(>=100)/second large/half-integral "
+                                        "x imaginary part 0/non-0, restricted to the calls the API accepts (LitValid)")
+
+
+# ==========================================================================================
 # laws on the corpus, (d) round trips
 # ==========================================================================================
 
@@ -1691,7 +2033,11 @@ def run(ctx, args):
         "replayed on real objects under 17 interpretations of the abstract classes, alternating surface syntax (==, !=, Integral ==, "
         "Form.equals, bool(Form == Form)); "
         "a history is non-trivial when some == between two distinct objects answers True (sharing is triggered). Sweep: one case "
-        "per (class, constructor attribute, alternative value); round trips: one case per (object, pickle|eval-repr)"
+        "per (class, constructor attribute, alternative value); round trips: one case per (object, pickle|eval-repr). "
+        "Literal mode: TLC enumerates every pair (thorough: also triple) of constructor calls about the same number, and seeded random "
+        "sequences of 8 calls, over the universe api x argument type x number (see coverage.literal_call_universe); the replay picks "
+        "concrete numbers (both signs, 99/100 at the flyweight bound) and numpy dtypes from the seed; a behaviour is non-trivial when two "
+        "calls that differ in api or argument type are predicted to return equal objects"
     )
     ctx.assume("elements are user objects: the check's own picklable Elem class with evaluable repr stands for them")
     ctx.assume("eval(repr(x)) is evaluated in a namespace holding `from ufl import *`, `from ufl.classes import *`, MeshSequence, Elem, Tag")
@@ -1703,6 +2049,14 @@ def run(ctx, args):
     ctx.assume("Measure is excluded from round trips (it compares metadata values by id(), it is neither an expression nor a form); "
                "MeshView is excluded (its constructor needs element.value_shape, which AbstractFiniteElement does not have)")
     ctx.assume("hash-flag/operand-sharing conformance treats a mismatch between EqShare.tla and the objects as a machinery failure")
+    ctx.assume("literals: IntValue/FloatValue/as_ufl accept any numbers.Integral / numbers.Real argument (Python bool, numpy integer and "
+               "floating scalars), IntValue also integral floats (the repository's tests do IntValue(1.0)), ComplexValue / as_ufl numpy "
+               "complex scalars; numbers are chosen exactly representable in the argument type; nan/inf are left out")
+    ctx.assume("literals: a behaviour starts with the numbers below the flyweight bound it uses not yet created, as in a fresh interpreter: "
+               "the replay takes them out of IntValue._cache before and puts the previous entries back afterwards; identity (`is`) of "
+               "literals and the predicted Python type of the stored value are recorded (coverage counters), only ==/hash/repr/value/"
+               "signature/round trips are judged")
+    lit_runs = literals_start(ctx)
     # (c)
     rows = sweep(ctx)
     cross_sweep(ctx)
@@ -1716,13 +2070,16 @@ def run(ctx, args):
     # (b)
     conformance(ctx)
     t3 = time.time()
+    # (e)
+    literals(ctx, lit_runs)
+    t3b = time.time()
     # laws on the corpus and (d)
     built = build_corpus(ctx)
     corpus_laws(ctx, built)
     all_roundtrips(ctx, built)
     t4 = time.time()
     ctx.cov["phase_wall_s"] = {"sweep": round(t1 - t0, 1), "tlc": round(t2 - t1, 1), "conformance": round(t3 - t2, 1),
-                               "corpus+roundtrips": round(t4 - t3, 1)}
+                               "literals": round(t3b - t3, 1), "corpus+roundtrips": round(t4 - t3b, 1)}
     ctx.cov["exhaustive"] = False
     ctx.sample({"sweep_pair": "Coefficient(V, 5) vs Coefficient(V, 6): != ; hash, repr differ"})
 
@@ -1789,6 +2146,30 @@ def selftest(ctx):
     s2 = Sink()
     roundtrips(s2, "plain", UC.Coefficient(mk_space(), 3), eval_namespace(), {}, kinds=("evalrepr", "pickle"))
     ok.append(("lossy repr rejected, faithful repr accepted", bool(s.viol) and not s2.viol))
+    # literal mode: a corrupted predicted equality class / an object holding an unconverted value must be rejected
+    res = run_eqshare(mode="lit", n=0, mt=0, lit=(2, True, LIT_CLASSES), invs=["LitLaws", "LitExport"], workers=4, timeout=600)
+    ctx.add_tlc(res)
+    tlc.require_ok(res, "EqShare literal mode (selftest)")
+    ldoc = next((d for d in tlc.decode_prints(res)
+                 if [(x["api"], x["src"], x["slot"]) for x in d["steps"]] == [("IntValue", "int", LL), ("IntValue", "npint", LL)]), None)
+    if ldoc is None:
+        raise MachineryError("selftest: literal behaviour IntValue(int), IntValue(numpy integer) not exported")
+    s = Sink()
+    replay_literals(s, ldoc, 1)
+    ok.append(("uncorrupted literal behaviour accepted", not s.viol and not s.counts))
+    bad = json.loads(json.dumps(ldoc))
+    bad["steps"][1]["eqc"] = 2
+    s = Sink()
+    replay_literals(s, bad, 1)
+    ok.append(("wrong predicted equality class of a literal rejected", any("literal-eq-spurious" in v[0] for v in s.viol)))
+    s = Sink()
+    replay_literals(s, ldoc, 1, tamper="raw-value")
+    ok.append(("literal holding an unconverted numpy value rejected", any("literal-equal-but-differ:IntValue:src=npint" in v[0] for v in s.viol)
+               and any(v[0].startswith("C13:evalrepr:IntValue") for v in s.viol)))
+    res = run_eqshare(mode="lit", n=0, mt=0, lit=(2, True, ("FloatValue", "ComplexValue")), invs=["LitLawsCex"], workers=1, timeout=600)
+    ctx.add_tlc(res)
+    ok.append(("TLC rejects the literal laws for an IntValue constructor that does not convert", res.outcome == "invariant"
+               and bool(tlc.decode_prints(res))))
     for what, good in ok:
         print(("selftest ok:   " if good else "selftest FAIL: ") + what, flush=True)
     ctx.traces(len(ok))
@@ -1812,7 +2193,9 @@ def replay(ctx, doc):
         replay_history(ctx, r["doc"], interpretations()[r["interp"]], r["seed"], r["perturb"])
     elif kind == "roundtrip":
         ns = eval_namespace()
-        if r.get("source") == "corpus":
+        if r.get("source") == "literal":
+            replay_literals(ctx, r["doc"], r["seed"])
+        elif r.get("source") == "corpus":
             for tag, fn, det in corpus():
                 if tag == r["tag"]:
                     roundtrips(ctx, tag, fn(Env()), ns, {"source": "corpus", "tag": tag}, kinds=(r["trip"],))
@@ -1821,6 +2204,8 @@ def replay(ctx, doc):
             x = case.build() if r.get("attr") is None else case.build(r["attr"], case.alts[r["attr"]][r["alt"]])
             roundtrips(ctx, r["case"], x, ns, {"source": "catalogue", "case": r["case"], "attr": r.get("attr"), "alt": r.get("alt")},
                        kinds=(r["trip"],))
+    elif kind == "literal":
+        replay_literals(ctx, r["doc"], r["seed"])
     elif kind in ("corpus", "corpus-pair"):
         corpus_laws(ctx, build_corpus())
     else:
